@@ -8,7 +8,7 @@ use refimpl::ntlm::{self, Account, Challenge};
 use serde::{Deserialize, Serialize};
 
 pub const LEVEL: &str = "exploration";
-pub const RULE: &str = "case = (domain, user, password or NT hash; CHALLENGE with an 8-byte server challenge, target name, a random subset and order of AV pairs 1..10 always containing MsvAvTimestamp, flags = mandatory set plus a random subset of VERSION / UNICODE / 56 / REQUEST_TARGET / TARGET_TYPE_*, payload order and padding variants). Oracle = independent MS-NLMP server verification given only the three messages and the account's NT hash: all offset/length pairs inside the token and non-overlapping, user/domain decode to the account, NTProofStr verifies, client-challenge blob well formed with the server's timestamp and AV pairs, LM response Z(24) or valid LMv2, RC4-wrapped session key unwraps, MIC verifies over the three messages; then a message sealed by build_security_interface() unseals under keys derived from the unwrapped session key. hash-login and password-login verify against the same account. edge-code-points puts each code point at the edges of the UTF-8 / UTF-16 forms (U+7F/80, U+7FF/800, U+D7FF/E000, U+FFFF/10000/10001, U+10FFFF ...) into each identity field at each position; one case in six lets the same context answer one or two earlier CHALLENGEs first (re-authentication) and verifies the last handshake; large-fields: domain / user names of up to 32767 characters and target information of up to 65 000 bytes (every field fits its 16-bit length, the payload crosses 64 KiB); one case in six hands the context a refused CHALLENGE (no timestamp, truncated, offset outside the message, no target information) before the real one; matrix enumerates every subset of the five optional flags x every subset of the nine optional AV pairs x both payload orders, and every (user length, domain length) and (user length, password length) pair in 0..=40. Non-trivial = non-empty credentials and >= 2 AV pairs; distinct by hash of the case.";
+pub const RULE: &str = "case = (domain, user, password or NT hash; CHALLENGE with an 8-byte server challenge, target name, a random subset and order of AV pairs 1..10 always containing MsvAvTimestamp, flags = mandatory set plus a random subset of VERSION / UNICODE / 56 / REQUEST_TARGET / TARGET_TYPE_*, payload order and padding variants). Oracle = independent MS-NLMP server verification given only the three messages and the account's NT hash: all offset/length pairs inside the token and non-overlapping, user/domain decode to the account, NTProofStr verifies, client-challenge blob well formed with the server's timestamp and AV pairs, LM response Z(24) or valid LMv2, RC4-wrapped session key unwraps, MIC verifies over the three messages; then a message sealed by build_security_interface() unseals under keys derived from the unwrapped session key. hash-login and password-login verify against the same account. edge-code-points puts each code point at the edges of the UTF-8 / UTF-16 forms (U+7F/80, U+7FF/800, U+D7FF/E000, U+FFFF/10000/10001, U+10FFFF ...) into each identity field at each position; one case in six lets the same context answer one or two earlier CHALLENGEs first (re-authentication) and verifies the last handshake; magic-names-and-secret-changes: names with a meaning of their own ('.', '..', 'localhost', '*', ...) in each identity field against target information with and without the computer / domain name pairs; a context for the same identity with ANOTHER secret used on the same thread just before (one case in six of the generated ones too). large-fields: domain / user names of up to 32767 characters and target information of up to 65 000 bytes (every field fits its 16-bit length, the payload crosses 64 KiB); one case in six hands the context a refused CHALLENGE (no timestamp, truncated, offset outside the message, no target information) before the real one; matrix enumerates every subset of the five optional flags x every subset of the nine optional AV pairs x both payload orders, and every (user length, domain length) and (user length, password length) pair in 0..=40. Non-trivial = non-empty credentials and >= 2 AV pairs; distinct by hash of the case.";
 
 #[derive(Serialize, Deserialize, Hash, Clone, Debug)]
 pub struct Case {
@@ -25,6 +25,10 @@ pub struct Case {
     /// whatever it made of them, the token for the real CHALLENGE must verify
     #[serde(default)]
     pub earlier_raw: Vec<Vec<u8>>,
+    /// a context for the SAME user and domain but this other password was created (and answered the CHALLENGE) on the same
+    /// thread just before: a mistyped password, a password change
+    #[serde(default)]
+    pub other_secret_before: Option<String>,
 }
 
 /// the handshake part: returns the context and the exported session key the independent verifier recovered
@@ -39,6 +43,20 @@ pub fn handshake(c: &Case, out: &mut Outcome) -> Option<(Ntlm, Vec<u8>)> {
     }
     if !c.user.is_ascii() || !c.domain.is_ascii() || !c.password.is_ascii() {
         out.label("non-ascii");
+    }
+    if let Some(other) = &c.other_secret_before {
+        out.label("same-identity-other-secret-before");
+        let chal0 = ntlm::build_challenge(&c.challenge);
+        let oh = crypto::nt_hash(other);
+        let mut n0 = if c.from_hash { Ntlm::from_hash(c.domain.clone(), c.user.clone(), &oh) } else { Ntlm::new(c.domain.clone(), c.user.clone(), other.clone()) };
+        let (r, _) = call(|| {
+            n0.create_negotiate_message()?;
+            n0.read_challenge_message(&chal0.bytes)
+        });
+        if let Res::Panic(p) = r {
+            fail_panic(out, "read_challenge_message", &p);
+            return None;
+        }
     }
     let nt_hash = crypto::nt_hash(&c.password);
     let account = Account { domain: c.domain.clone(), user: c.user.clone(), nt_hash: nt_hash.clone() };
@@ -146,7 +164,13 @@ pub fn run(c: &Case) -> Outcome {
 }
 
 /// characters whose uppercase mapping is a single BMP code unit under every implementation we know of
+/// names with a meaning of their own for some tool or server (local-account shorthand, wildcards, separators)
+pub const MAGIC_NAMES: [&str; 14] = [".", "..", "\\", "@", ".\\", "localhost", "WORKGROUP", "-", "*", " ", "NT AUTHORITY", "$", "BUILTIN", "a@b"];
+
 pub fn gen_name(s: &mut Src, max: usize) -> String {
+    if s.chance(12) {
+        return s.pick(&MAGIC_NAMES).to_string();
+    }
     let n = match s.below(5) {
         0 => 0,
         _ => 1 + s.below(max),
@@ -228,6 +252,7 @@ pub fn gen_challenge(s: &mut Src, unicode_names: bool) -> Challenge {
 
 pub fn decode(s: &mut Src) -> Case {
     let refused = s.chance(40);
+    let other = s.chance(40);
     let domain = gen_name(s, 16);
     let user = gen_name(s, 20);
     let password = crate::mem::gen_string(s, 32);
@@ -270,7 +295,8 @@ pub fn decode(s: &mut Src) -> Case {
         };
         earlier_raw.push(b);
     }
-    Case { domain, user, password, from_hash, challenge, message, earlier, earlier_raw }
+    let other_secret_before = if other { Some(format!("{}x", password)) } else { None };
+    Case { domain, user, password, from_hash, challenge, message, earlier, earlier_raw, other_secret_before }
 }
 
 /// every subset of the optional flags x every subset of the optional AV pairs x both payload orders, and
@@ -290,6 +316,7 @@ fn matrix(part: usize, parts: usize) -> impl Iterator<Item = Case> {
             message: vec![0x42; 9],
             earlier: Vec::new(),
             earlier_raw: Vec::new(),
+            other_secret_before: None,
         };
         if i < n_flag_av {
             let fm = i % 32;
@@ -351,6 +378,41 @@ pub fn check(rep: &Report) {
         }
     }
     rep.list("edge-code-points", edges, run);
+    // names with a meaning of their own in each identity field, against target information with and without each name pair;
+    // and the same identity with another secret used just before on the same thread (password and hash logons)
+    let mut magic = Vec::new();
+    for name in MAGIC_NAMES {
+        for field in 0..3 {
+            for info in 0..4 {
+                for from_hash in [false, true] {
+                    let mut c = matrix(0, 1).next().unwrap();
+                    c.from_hash = from_hash;
+                    match field {
+                        0 => c.password = name.to_string(),
+                        1 => c.user = name.to_string(),
+                        _ => c.domain = name.to_string(),
+                    }
+                    c.challenge.target_info = match info {
+                        0 => vec![(7, vec![5; 8])],
+                        1 => vec![(1, refimpl::crypto::utf16le("SERVER1")), (7, vec![5; 8])],
+                        2 => vec![(2, refimpl::crypto::utf16le("DOM")), (1, refimpl::crypto::utf16le("SERVER1")), (3, refimpl::crypto::utf16le("server1.dom.local")), (4, refimpl::crypto::utf16le("dom.local")), (7, vec![5; 8])],
+                        _ => vec![(7, vec![5; 8]), (9, refimpl::crypto::utf16le("TERMSRV/server1")), (6, vec![2, 0, 0, 0])],
+                    };
+                    magic.push(c);
+                }
+            }
+        }
+    }
+    for from_hash in [false, true] {
+        for (a, b) in [("Password", "Passw0rd"), ("", "x"), ("x", ""), ("p1", "p2"), ("same", "same")] {
+            let mut c = matrix(0, 1).next().unwrap();
+            c.from_hash = from_hash;
+            c.password = b.to_string();
+            c.other_secret_before = Some(a.to_string());
+            magic.push(c);
+        }
+    }
+    rep.list("magic-names-and-secret-changes", magic, run);
     // long fields: every field still fits its 16-bit length, but the payload as a whole crosses 64 KiB
     let mut large = Vec::new();
     for (dl, ul, til) in [(20000usize, 13000usize, 40usize), (3000, 1000, 59000), (32767, 0, 40), (0, 32767, 40), (16384, 16384, 40), (100, 100, 65000), (10000, 10000, 20000), (32767, 32767, 65000), (1, 1, 65400), (16000, 16000, 1000), (8192, 8192, 32768)] {
@@ -375,4 +437,5 @@ pub fn check(rep: &Report) {
     rep.require("tokens", "non-ascii", 2000);
     rep.require("tokens", "re-authentication", 2000);
     rep.require("tokens", "after-refused-challenge", 2000);
+    rep.require("tokens", "same-identity-other-secret-before", 2000);
 }
